@@ -18,6 +18,11 @@ CHECKS["C02"] = dict(level="exploration", engine="seqx",
    text="Every atom and every ordered pair of atoms in 4 boolean forms, each left atom under every time range with bounds on/next to event timestamps, over 4 datasets (mixed-type, ints, floats, strings; sparse columns) x 5 physical layouts x cardinality limits; oracles: three-valued reference model of the comparison rules the statement fixes, AND/OR = intersection/union of the observed operand results, NOT never overlaps its operand and is the complement where the comparison applies, search clause == where stage on numeric values, time-range restriction.",
    note="The model takes no stance on string-vs-number coercion, bool literals, != on absent fields, substring-but-not-word free text, NOT over absent/other-typed values. 35 genuine wrong-answer classes on the pinned tree are recorded in known_findings.json keyed by (oracle, data condition); failures under plain conditions keep detailed fingerprints.",
    ref="DESIGN.md §4 C02")
+CHECKS["C04"] = dict(level="exploration", engine="seqx",
+   technique="bounded-exhaustive enumeration of measure x group-by x span combinations over small datasets x every flush/rotate segmentation, on the real engine, against a Go aggregate model",
+   text="14 measures x 4 target columns (dense, sparse, numeric-string, mixed) x 5 group-bys, combined and single-measure, and timechart spans 1s/1m/1h with/without by, over 4 datasets with timestamps on / 1 ms around bucket edges, for every placement of flush/rotate between events (54 segmentations per 4-event dataset) x cardinality limits; every bucket is compared with the aggregate computed by the reference model over exactly the model events of that group / time bucket.",
+   note="Numeric measures are asserted for numeric and numeric-string values (min/max/percentiles only for numbers); percentiles must lie between neighbouring order statistics; an all-absent group may be omitted. Grouping by sparse/mixed keys and measures over sparse/mixed columns are wrong or crash on the pinned tree (nondeterministically across segments): recorded per (measure family, group class, column class) in known_findings.json; vanilla classes (no group / dense group, dense column) have no known finding.",
+   ref="DESIGN.md §4 C04")
 NOT_YET = {}
 props = [json.loads(l) for l in open("properties.jsonl")]
 m = {"version": 1, "setup_cmd": "./vcheck setup",
